@@ -371,15 +371,12 @@ def run(chk):
             terms = ["(([] : str), render_scan T %s %s %s, ([] : list Z))" % (edge_list(known_serde), edge_list(known_async), coq_tree(r["tree"], ids)) for _, r in trees]
             root = os.path.realpath(vlib.REPO)
             ver = repo_version()
-            for c, b, ms in zip(build, outs, main_scans):
-                if not (b["ok"] and b["manifest"] and ms["ok"]):
+            for c, b, ms, ds in zip(build, outs, main_scans, dep_scans):
+                if not ms["ok"] or not all(d["ok"] for d in ds):
                     continue
-                order = [n for n, sp in parse_deps(b["manifest"]) if n in ms["crates"]]
-                # crates that were skipped as already-added keep their place in the table; position is irrelevant
-                order += [n for n in ms["crates"] if n not in order]
-                c["order"] = order
+                c["modelled"] = True
                 terms.append("(render_cli T %s %s %s %s %s)" % (zs(c["stem"]), zs(root), zs(ver), coq_tree(ms["tree"], ids),
-                                                                 "[" + "; ".join(zs(n) for n in order) + "]"))
+                                                                 "[" + "; ".join(coq_tree(d["tree"], ids) for d in ds) + "]"))
             terms.append("(([] : str), [(if table_ok (t_versions T) then 1 else 0); (if table_wf (t_versions T) then 1 else 0)], ([] : list Z))")
             extra = "Definition T : tables := %s.\n" % tables_term()
             vals = vlib.coq_eval(req, "str * list Z * list Z", "fun x => x", terms, tag="c15", shard=40, extra_defs=extra)
@@ -426,8 +423,17 @@ def run(chk):
         for c, b, ms, ds in zip(build, outs, main_scans, dep_scans):
             chk.count_case(("build", c["name"], c["files"]), nontrivial=bool(b["ok"]))
             stem_ok = legal_name(c["stem"])
+            v = None
+            if c.get("modelled") and ci < len(cli_vals):
+                v = cli_vals[ci]
+                ci += 1
             if not b["ok"] or not b["manifest"]:
-                if stem_ok:
+                refused = "unknown Rust crate" in b["err"] or "Cargo package name" in b["err"]
+                if v is not None and refused and v[2][0] != 0:
+                    corr_bad.append({"case": c["name"], "what": "`incan build` refuses, the model writes a project", "impl": b["err"][:300]})
+                if v is not None and not refused and v[2][0] == 0:
+                    corr_bad.append({"case": c["name"], "what": "the model refuses (unknown crate / illegal name), `incan build` failed for another reason", "impl": b["err"][:300]})
+                if not refused:
                     chk.notes.append("build case %s did not generate a project: %s" % (c["name"], b["err"][:200]))
                 continue
             deps = parse_deps(b["manifest"])
@@ -479,19 +485,16 @@ def run(chk):
                     fails.append({"case": c["name"], "files": c["files"], "why": "legal project name but cargo rejects the manifest or the names are wrong: " + msg})
                 if not stem_ok and not ok and "project-name-unvalidated" not in listed:
                     fails.append({"case": c["name"], "files": c["files"], "why": "file stem `%s` is not a legal package name; incan generates a manifest cargo rejects: %s" % (c["stem"], msg)})
-            # (5) correspondence: model manifest text + flags + booleans
-            if "order" in c and ci < len(cli_vals):
-                v = cli_vals[ci]
-                ci += 1
+            # (5) correspondence: model manifest text + booleans
+            if v is not None:
                 text = "".join(chr(x) for x in v[0])
-                if text != b["manifest"]:
+                built_m, pinned_m, tomlok_m, legal_m = v[2]
+                if built_m != 1:
+                    corr_bad.append({"case": c["name"], "what": "`incan build` writes a project, the model refuses", "model": v[2]})
+                elif text != b["manifest"]:
                     corr_bad.append({"case": c["name"], "what": "Cargo.toml text", "model": text, "impl": b["manifest"]})
-                pinned_m, wild_m, tomlok_m, legal_m = v[2]
-                real_wild = any(spec == '"*"' for _, spec in deps)
-                if (wild_m == 1) != real_wild or (legal_m == 1) != stem_ok:
-                    corr_bad.append({"case": c["name"], "what": "class predicates", "model": v[2], "impl": [real_wild, stem_ok]})
-                if stem_ok and tomlok_m != 1:
-                    corr_bad.append({"case": c["name"], "what": "manifest_ok (TOML recogniser) rejects a manifest of a legal name", "model": v[2]})
+                elif tomlok_m != 1 or (legal_m == 1) != stem_ok:
+                    corr_bad.append({"case": c["name"], "what": "manifest_ok / legal_name disagree with the implementation", "model": v[2]})
 
         # ---- known findings: re-run witnesses
         by = {c["name"]: (c, b) for c, b in zip(build, outs)}
